@@ -69,13 +69,16 @@ ASSUMPTIONS = [
     "residual tolerance 1e-9 * scale * cond, scale = |P| + n(1+|K|)|F|, cond = max(1,|K| resp. |K^ rho|)^(n-1);"
     " cond additionally multiplied by the measured rounding-noise amplification of the reference (re-evaluation with"
     " inputs moved by 8, 64, 512 ulp; result and reference); reduction tolerance 1e-9 relative times that amplification, RelativisticPVector"
-    " reduction only where rho is real positive; points with 1e-9*cond > 1e-3, non-finite reference values or a rho within"
+    " reduction only where rho is real positive; points with 1e-9*cond > 1e-3, non-finite reference values, values"
+    " whose finiteness changes under the 8..512 ulp perturbation (e.g. log(0) by cancellation in chew_mandelstam_s_wave"
+    " for s >> m1 m2), Chew-Mandelstam based factors with max(s, m_R^2)/(m_a m_b) > 1e5 (the library's formula"
+    " cancels all digits from ~1e8 on) or a rho within"
     " 1e-9 (angle) of the negative real axis (sqrt branch cut) are not asserted",
-    "3-channel RelativisticPVector is not generated: its formulate() does not terminate within 15 minutes",
+    "3-channel RelativisticPVector is not generated: its formulate() (symbolic 3x3 inverse with nested sqrt(rho) factors) did not terminate within 25 minutes",
 ]
 BUDGET = {
     "quick": {"examples": 1280, "shards": 16, "cap_s": 150, "shrink_calls": 150, "shrink_s": 60},
-    "thorough": {"examples": 4800, "shards": 16, "cap_s": 1500, "shrink_calls": 600, "shrink_s": 240},
+    "thorough": {"examples": 14400, "shards": 16, "cap_s": 1500, "shrink_calls": 600, "shrink_s": 240},
 }
 BATCH = {"quick": 64, "thorough": 512}
 TOL = 1e-9
@@ -123,33 +126,34 @@ def shard_env(k, tier):
 
 
 def _config_strategy(tier):
+    # NB: only `sampled_from` over lists of < 256 entries, combined with `tuples` (see c09._config_strategy)
     if tier == "quick":
         k = int(os.environ.get("VP_KMAT_SHARD", "0"))
         return st.one_of(st.sampled_from(LIGHT), st.sampled_from(LIGHT), st.just(HEAVY[k % len(HEAVY)]))
+    shape = st.sampled_from([(nc, npo) for nc in (1, 2, 3) for npo in (1, 2, 3)])
+    dyn = st.sampled_from([(ell, d) for ell in range(5) for d in ("1", "3/2", "sym")])
+    args = st.sampled_from([
+        (phsp, hat, prior) for phsp in kmat.PHSP_NAMES for hat in (False, True) for prior in (False, True)
+    ])
+    cls = st.sampled_from(["RPV", "RPV", "RK", "RK", "NRPV", "NRK"])
 
-    def grid(cls, max_nc):
-        rel = cls in {"RPV", "RK"}
-        return st.fixed_dictionaries({
-            "cls": st.just(cls),
-            "nc": st.integers(1, max_nc),
-            "np": st.integers(1, 3),
-            "L": st.integers(0, 4) if rel else st.just(0),
-            "d": st.sampled_from(["1", "3/2", "sym"]) if rel else st.just("1"),
-            "phsp": st.sampled_from(kmat.PHSP_NAMES) if rel else st.just("PhaseSpaceFactor"),
-            "hat": st.booleans() if rel else st.just(False),
-            "prior": st.booleans() if rel else st.just(False),
-            "route": st.just("compose"),
-        })
+    def build(t):
+        (kind, (nc, npo), (ell, d), (phsp, hat, prior)) = t
+        if kind in {"NRPV", "NRK"}:
+            return _cfg(kind, nc, npo)
+        if kind == "RPV":
+            nc = min(nc, 2)  # 3 channels: formulate() does not terminate
+        return _cfg(kind, nc, npo, ell, d, phsp, hat, prior)
 
-    return st.one_of(grid("RPV", 2), grid("RPV", 2), grid("RK", 3), grid("NRPV", 3), grid("NRK", 3),
-                     st.sampled_from(LIGHT))
+    return st.tuples(cls, shape, dyn, args).map(build)
 
 
 def strategy(tier):
     return st.fixed_dictionaries({
         "config": _config_strategy(tier),
         "regime": st.sampled_from(REGIMES),
-        "point_seed": st.integers(0, 2**32 - 1),
+        # six bytes instead of one big integer (Hypothesis draws big integers mostly below 2^16 and repeats them)
+        "point_seed": st.lists(st.integers(0, 255), min_size=6, max_size=6),
         "batch": st.just(BATCH[tier]),
     })
 
@@ -309,9 +313,9 @@ def _structure(matrix, cfg_cls, ell, radius, phsp, phsp_name):
     want = kmat.expected_phsp_classes(phsp_name) if rel else set()
     if seen_phsp != want:
         return "foreign_phsp_class", {"got": sorted(seen_phsp), "want": sorted(want)}
-    # atoms(): the same question asked through sympy's own traversal
+    # atoms(): sympy's own traversal (it does not look inside the widths, hence a subset)
     atom_names = {by_type[type(a)] for a in matrix.atoms(*classes.values())}
-    if atom_names != want:
+    if not atom_names <= want:
         return "foreign_phsp_class", {"got": sorted(atom_names), "want": sorted(want), "via": "atoms"}
     if rel and (n_width == 0 or (cfg_cls == "RPV" and n_ff == 0)):
         return "missing_width_or_form_factor", {"widths": n_width, "form_factors": n_ff}
@@ -352,10 +356,12 @@ def _point(vals, k) -> dict:
 
 
 PERTURBATIONS = (8, 64, 512)  # ulp
+CANCELLING_PHSP = {"PhaseSpaceFactorSWave", "chew_mandelstam_s_wave"}
+CANCELLING_RANGE = 1e5  # max(s, m_R^2)/(m_a m_b) up to which the Chew-Mandelstam formula keeps >= 6 digits
 
 
 def _perturbed(vals, seed, n_ulp):
-    rng = np.random.default_rng([int(seed), n_ulp])
+    rng = np.random.default_rng(kmat.seed_entropy(seed, n_ulp))
     return {k: np.asarray(v) * (1 + n_ulp * kmat.EPS * rng.choice([-1.0, 1.0], np.shape(v)))
             for k, v in vals.items()}
 
@@ -405,12 +411,17 @@ def run_case(desc) -> Result:  # noqa: C901, PLR0911, PLR0912, PLR0915
     # evaluate it in a different order after common-subexpression elimination)
     amp = np.ones(batch)
     perturbed = []
+    got_flat = got.reshape(batch, -1)
+    finite_0 = np.isfinite(got_flat).all(axis=1) & np.isfinite(ref).all(axis=1)
+    unstable = np.zeros(batch, dtype=bool)  # finite here, inf/nan a few ulp away, or the other way round
     for n_ulp in PERTURBATIONS:
         vals_p = _perturbed(vals, desc["point_seed"], n_ulp)
         perturbed.append((vals_p, n_ulp))
-        amp = np.maximum(amp, _amplification(ref, built.reference(vals_p, as_complex=True), n_ulp))
-        amp = np.maximum(amp, _amplification(
-            got.reshape(batch, -1), built.result(vals_p, as_complex=True).reshape(batch, -1), n_ulp))
+        ref_p = built.reference(vals_p, as_complex=True)
+        got_p = built.result(vals_p, as_complex=True).reshape(batch, -1)
+        unstable |= (np.isfinite(got_p).all(axis=1) & np.isfinite(ref_p).all(axis=1)) != finite_0
+        amp = np.maximum(amp, _amplification(ref, ref_p, n_ulp))
+        amp = np.maximum(amp, _amplification(got_flat, got_p, n_ulp))
     k_mat = ref[:, : nc * nc].reshape(batch, nc, nc)
     p_vec = ref[:, nc * nc : nc * nc + nc]
     rho = ref[:, nc * nc + nc :]
@@ -418,7 +429,16 @@ def run_case(desc) -> Result:  # noqa: C901, PLR0911, PLR0912, PLR0915
     with np.errstate(all="ignore"):
         sq = np.sqrt(rho)
         on_cut = ((rho.real < 0) & (np.abs(rho.imag) <= 1e-9 * np.abs(rho))).any(axis=1)
-        usable = np.isfinite(ref).all(axis=1) & (np.abs(rho) > 0).all(axis=1) & ~on_cut
+        usable = np.isfinite(ref).all(axis=1) & (np.abs(rho) > 0).all(axis=1) & ~on_cut & ~unstable
+        if rel and cfg["phsp"] in CANCELLING_PHSP:
+            # log((m1^2+m2^2-s+2 sqrt(s) q)/(2 m1 m2)): the numerator is ~ -2(m1 m2)^2/s, computed from terms of
+            # size s: relative noise eps (s/(m1 m2))^2/2, i.e. 100% ("stable garbage" that differs between two
+            # orders of evaluation and does not move under perturbation) from s/(m1 m2) ~ 1e8
+            top = np.maximum(vals["s"], (vals["m"] ** 2).max(axis=1))
+            in_range = (top[:, None] / (vals["m_a"] * vals["m_b"]) <= CANCELLING_RANGE).all(axis=1)
+            if (~in_range).any():
+                labels.append("outside_double_precision_range_of_chew_mandelstam")
+            usable &= in_range
         if vector:
             f_got = got[:, :, 0]
             f_hat = f_got if (cfg["hat"] or not rel) else f_got / sq
@@ -448,13 +468,18 @@ def run_case(desc) -> Result:  # noqa: C901, PLR0911, PLR0912, PLR0915
         labels.append("pole_below_threshold")
     if (~usable).any():
         labels.append("points_without_reference")
+    if unstable.any():
+        labels.append("numerically_unstable_points")
     if (usable & ~asserted).any():
         labels.append("vacuous_points")
     if (kmat.pole_distance(vals) < 1e-3).any():
         labels.append("near_pole<1e-3")
     nontrivial = interesting and int(asserted.sum()) >= 20
 
-    bad = asserted & ~got_finite
+    bad = asserted & ~got_finite & (amp <= 1e3)  # inf/nan at an ill-conditioned point is rounding, not a defect
+    if (asserted & ~got_finite & (amp > 1e3)).any():
+        labels.append("non_finite_at_ill_conditioned_point")
+    asserted &= got_finite
     if bad.any():
         k = int(np.flatnonzero(bad)[0])
         return violation("non_finite_result", nontrivial, labels, n_bad=int(bad.sum()), index=k, point=_point(vals, k))
